@@ -247,7 +247,7 @@ def try_log_compaction(ctx):
         ctx.prove(isinstance(dc, PDict) and set(dc.items) == {'userAttr'} and dc.items['userAttr'] is user_attr, 'C09:O9.1.state-is-the-user-attributes')
         cb = ctx.cell(cluster).bits
         vb = old.get('otherNodes').bits
-        ctx.prove(And(cb[so.U], *[Iff(cb[i], vb[i]) for i in range(so.U)]), 'C09+C10:O9.1.cluster-is-voters-plus-self')
+        ctx.prove(And(cb[so.U], *[Iff(cb[i], vb[i]) for i in range(so.U)]), 'C09+C10+C18:O9.1.cluster-is-voters-plus-self')
     for n, b in field_unchanged(old, so, ['raftCommitIndex', 'raftLastApplied', 'raftCurrentTerm', 'otherNodes']):
         ctx.prove(b, 'C09+C04:O9.1.frame.%s' % n)
 
@@ -377,3 +377,46 @@ def _mut_commit_from_one(fn):
             n.value = ast.Constant(value=1)
             cnt += 1
     return cnt
+
+
+# ------------------------------------------------------------------------------------------------ what SyncObj.__init__ excludes from dumps
+@unit(name='init.properies', relpath=MOD, qual=['SyncObj.__init__'], props=['C09', 'C07', 'C03', 'C17'],
+      kind='region of SyncObj.__init__: the statements that build __properies (from `self.__properies = set()` up to the creation of '
+           '__enabledCodeVersion), on an object holding every internal attribute created before them',
+      doc='O9.1 (what a dump may contain): after the bookkeeping statements of __init__ every attribute that existed before them - all Raft state: '
+          'term, vote, role, log, commit and applied index, member sets, leader maps, ... - is recorded in __properies, which __tryLogCompaction '
+          'excludes from the dumped object state (unit tryLogCompaction).  So loading a dump (start-up or install-snapshot) can never overwrite '
+          'term or vote (C07/C03 in-memory half: the term does not go backwards, the vote of the current term is kept)')
+def init_properies(ctx):
+    so = SO(ctx, 2)
+    mod = so.mod
+    fn, ci = mod.find('SyncObj.__init__')
+    idx = [i for i, st in enumerate(fn.body) if any(isinstance(x, ast.Attribute) and x.attr == '__properies' for x in ast.walk(st))]
+    ver = [i for i, st in enumerate(fn.body) if isinstance(st, ast.Assign) and any(isinstance(t, ast.Attribute) and t.attr == '__enabledCodeVersion' for t in st.targets)]
+    if not idx:
+        raise Undecided('the __properies bookkeeping of SyncObj.__init__ was not located')
+    end = min([v for v in ver if v > idx[0]] or [max(idx) + 1])
+    end = max(end, max(i for i in idx if i < end or not ver) + 1) if idx else end
+    region = fn.body[idx[0]:end]
+    before = sorted(k for k in ctx.cell(so.selfref).fields if k != '_SyncObj__properies')
+    ctx.prove(all(F(n) in before for n in ('raftCurrentTerm', 'votedForNodeId', 'raftState', 'raftLog', 'raftCommitIndex', 'raftLastApplied', 'otherNodes')),
+              'C09:O9.1.init.model-object-holds-the-raft-state', info=repr(before[:8]))
+    I = make_interp(ctx, so)
+    kind, v, fr = run_region(I, so, 'SyncObj.__init__', region, {})
+    ctx.prove(kind == 'ok', 'C09+C07:O9.1.init.no-exception', info=getattr(v, 'typ', None))
+    if kind != 'ok':
+        return
+    pr = ctx.cell(so.selfref).fields.get(F('properies'))
+    pc = ctx.cell(pr) if isinstance(pr, Ref) else pr
+    names = None
+    if isinstance(pc, KVDict):
+        names = [(p, k) for p, k, _ in pc.entries]
+    elif isinstance(pc, PList):
+        names = [(True, k) for k in pc.items]
+    ctx.prove(names is not None, 'C09+C07:O9.1.init.properies-is-a-set-of-names', info=repr(pc))
+    if names is None:
+        return
+    for n in before:
+        present = Or(*[p for p, k in names if k == n]) if any(k == n for p, k in names) else False
+        tag = 'C09+C07+C03:O9.1.init.raft-state-excluded-from-dumps' if n in (F('raftCurrentTerm'), F('votedForNodeId')) else 'C09+C17:O9.1.init.internal-attribute-excluded-from-dumps'
+        ctx.prove(present, tag, info=n)
